@@ -157,6 +157,10 @@ def replay_text(t, ops, upto):
     if ops and ops[0].startswith("foreign"):
         return ("document (percent-encoded): %s\nreplay: printf 'foreign\\t%s\\n' | harness/target/debug/xmlrs-driver\n"
                 % (lib.enc(t), lib.enc(t).replace("%", "%%")))
+    if ops and ops[0].startswith("(text-expanded"):
+        return ("document (percent-encoded): %s\noperations (text-expanded view): %s\nreplay: printf 'domx\\t%s\\t\\t%s\\n' | "
+                "harness/target/debug/xmlrs-driver\n" % (lib.enc(t), " ".join(ops[1:upto]), lib.enc(t).replace("%", "%%"),
+                                                         "\\t".join(lib.enc(o).replace("%", "%%") for o in ops[1:upto])))
     return ("document (percent-encoded): %s\noperations: %s\nreplay: printf 'dom\\t%s\\t\\t%s\\n' | harness/target/debug/xmlrs-driver\n"
             % (lib.enc(t), " ".join(ops[:upto]), lib.enc(t).replace("%", "%%"),
                "\\t".join(lib.enc(o).replace("%", "%%") for o in ops[:upto])))
@@ -423,6 +427,30 @@ def run_c13(chk):
                               "changed (or the call crashed)", "%s\nbefore: %s\nafter:  %s" % (recs[i_]["status"], recs[0].get("dump", "")[:400],
                                                                                               recs[i_].get("dump", "")[:400])))
                 break
+    # ... and random histories in that view: whatever handle a call is given (a run that has meanwhile lost or gained items
+    # included), a call that REPORTS an exception leaves the dump as it was (round-9 seed C13-N removed the items of an outdated
+    # run one by one until it met the missing one)
+    xh = histories(rng, 500 if thorough else 200, 8, 0.25)
+    # (directed: a handle on a run of two items - parsed text + an appended CDATA section / text node / reference - taken BEFORE one
+    # of the items is moved or removed through its own handle; then the outdated run is removed / moved / used as a reference)
+    XD = "<r><a>one</a><b/></r>"       # h0 document, h1 r, h2 a, h3 `one`, h4 b; h5 = the created node, h6 = the run of two
+    for mk in ("cd:two", "ct:two", "cr:amp"):
+        for away in ("ap:h4:h5", "rm:h2:h5", "ib:h1:h5:h4"):
+            for late in ("rm:h2:h6", "ap:h4:h6", "ib:h1:h6:h4", "rc:h2:h4:h6", "ib:h2:h4:h6"):
+                xh.append((XD, [mk, "ap:h2:h5", "ch:h2:0", away, late]))
+    xho = lib.run_lines(lib.build_harness(), [lib.req("domx", t, "count(//node())", *ops) for t, ops in xh], timeout=900, per_line_resume=True)
+    xfail = 0
+    for (t, ops), o in zip(xh, xho):
+        recs = D.split_records(o)
+        for i_ in range(1, len(recs)):
+            st_ = recs[i_]["status"]
+            chk.count(["expanded-hist", t] + ops[:i_], nontrivial=st_.startswith("err"))
+            xfail += st_.startswith("err")
+            if st_.startswith("err") and recs[i_].get("dump") != recs[i_ - 1].get("dump"):
+                mfail.append((t, ["(text-expanded view)"] + ops, i_ + 1, "a call that reported an exception changed the document",
+                              "%s\nbefore: %s\nafter:  %s" % (st_, recs[i_ - 1].get("dump", "")[:500], recs[i_].get("dump", "")[:500])))
+                break
+    chk.cov["expanded_view_failed_calls"] = xfail
     chk.cov["foreign_document_calls"] = ncalls
     chk.cov["result_classes"] = dict(sorted(classes.items()))
     chk.cov["rule"] = ("%d histories of up to %d mutator calls with receivers/arguments of every kind and position and name/value strings "
